@@ -83,6 +83,9 @@ class VariableTransformer:
         if np.isscalar(pub):
             pub = pub * np.ones((1, D))
 
+        # Integer-typed bounds would truncate the in-place log transform below
+        lb, ub, plb, pub = (b.astype(float) for b in (lb, ub, plb, pub))
+
         # Save original vectors
         self.orig_ub = ub.copy()
         self.orig_lb = lb.copy()
